@@ -101,7 +101,7 @@ namespace sim
                     violate("C01", "outside_owned", "ptr not inside any live upstream block bytes=%zu",
                             bytes);
                 if (h.off(p) + bytes > b->off + b->size)
-                    violate("C01", "outside_owned", "allocation runs past the end of its block by %zu",
+                    violate("C01,C02", "outside_owned", "allocation runs past the end of its block by %zu",
                             h.off(p) + bytes - (b->off + b->size));
                 if (owner && b->owner != owner)
                     violate("C01", "outside_owned", "inside a block of owner %d, allocator's source is %d",
